@@ -80,15 +80,27 @@ def _reach_constrained(body, starts, choose, avoid=()):
     return seen
 
 
+def _static_index(p):
+    """bounds check of a literal index into a fixed-length local array with index < length (`buf[0]` of `[0; 8]`): true at compile
+    time, consumes no peer byte.  Such a site is still classified (table), but how many times a function spells `buf[0]` is not
+    something that must exist, so it does not count towards the site floor."""
+    import re
+    m = re.fullmatch(r'index \((\d+) Lt (\d+)\)', p['need']) if p['callee'] == '[bounds]' else None
+    return bool(m) and int(m.group(1)) < int(m.group(2))
+
+
 def guarded_reads(ctx, rule='a'):
     F = ctx.facts
     ss = G.sites(F)
     n_auto = 0
+    n_peer = 0
     used = set()
     for s in ss:
         p = G.profile(F, s)
         v = G.auto_verdict(p)
         where = '%s:%d' % (p['file'], p['line'])
+        if not _static_index(p):
+            n_peer += 1
         if v:
             n_auto += 1
             ctx.ok(rule, 'guarded_read', p['fn'], where, '%s need=%s: %s' % (p['callee'], p['need'][:40], v[1][:120]))
@@ -109,7 +121,8 @@ def guarded_reads(ctx, rule='a'):
         ctx.check(not missing, rule, 'guard_relation_changed', p['fn_id'], where, '%s need=%s: %s' % (p['callee'], p['need'][:40], reason[:100]),
                   'the guard(s) confirmed for %s (need %s) are gone or changed: missing %s; present: %s' % (p['callee'], p['need'][:60], missing, p['all_guards'][:5]),
                   site_class=p['callee'].split('::')[-1])
-    ctx.floor(rule, 'consuming_read_sites', len(ss), GT.FLOOR_SITES)
+    # sites whose index / length depends on peer bytes or on the buffer (compile-time-true constant indexing excluded, see _static_index)
+    ctx.floor(rule, 'consuming_read_sites', n_peer, GT.FLOOR_SITES)
     ctx.floor(rule, 'auto_discharged_sites', n_auto, GT.FLOOR_AUTO)
     # exported obligations: callers
     for callee, allowed in GT.EXPORTED.items():
